@@ -197,21 +197,26 @@ def rec(rep, ex: Explorer, cls: str):
 
 
 # ----------------------------------------------------------------------------------------------
-def inference_entry(rep, ex: Explorer, cls: str, kind="cond", strict=True, extended=False, prefix="Z", extra_state=None,
-                    handle=None, key="entry", pcls=""):
-    """The operator's `_inference`: strict start index, and the extended branch (EXT.inf-hard, EXT.vacuity,
-    EXT.start-total).  ``handle(path, reccall, mode)`` lets the operator modules inspect the object(s) handed to the
-    recursion; it returns the list of abstract item-sets that must carry the infinity layer."""
+def inference_entry(rep, ex: Explorer, cls: str, kind="cond", extra_state=None, key="entry", pcls="", summaries=None,
+                    hooks=None, pmaxsat=None, query_cls=""):
+    """Explore the operator's `_inference` with the recursive core summarised (it has its own obligations)."""
     qual = f"{cls}._inference"
     site = fn_label(ex.prog, qual)
 
     def setup(I):
-        s, es = _self_with_partition(I, cls, kind, extra_state, pcls)
-        return [s, make_query(), Sym("weakly", "bool"), Sym("deadline")], {}
+        bb = make_belief_base(I)
+        st = {"partition": P_value(kind, pcls)}
+        if extra_state:
+            st.update(extra_state(I) if callable(extra_state) else extra_state)
+        es = make_epistemic_state(I, bb, "x", extra=st, pmaxsat=pmaxsat)
+        s = I.alloc(HObj(cls, {"epistemic_state": es}))
+        return [s, make_query(query_cls), Sym("weakly", "bool"), Sym("deadline")], {}
 
     summ = dict(wrappers.SUMMARIES)
+    if summaries:
+        summ.update(summaries)
     summ[f"{cls}._rec_inference"] = reccall_summary
-    paths = ex.run(qual, setup, summaries=summ, key=key)
+    paths = ex.run(qual, setup, summaries=summ, key=key, hooks=hooks)
     return site, paths
 
 
